@@ -446,6 +446,12 @@ func (c *ctxConn) Read(b []byte) (n int, err error) {
 		}
 
 		n, err = c.conn.Read(b)
+		if n > 0 {
+			// A connection may hand over its last bytes together with an error (TLS 1.2 does, when the
+			// close notification of the peer follows the data at once): the bytes count, and the
+			// connection reports the error again on the next call
+			return n, nil
+		}
 		if err != nil {
 			if netErr, ok := err.(net.Error); ok && netErr.Timeout() && netErr.Temporary() {
 				continue
